@@ -125,6 +125,17 @@ def run_case(ctx, name, params):
             sel.fast_nondominated_sorting(keep)
             judge(ctx, cs, keep, "resorted")
             ctx.count("resort_checks")
+            # the SAME list object again, one member replaced in place by a copy that carries the same id (what deepcopy, a
+            # pickle round trip or from_dict produce) and other costs
+            import copy as _copy
+            k_ = r.randrange(len(keep))
+            twin = _copy.deepcopy(keep[k_])
+            twin.costs_signed = gen.cost_vector(r, m, "grid") + [twin.costs_signed[-1]]
+            keep[k_] = twin
+            cs = [list(i.costs_signed) for i in keep]
+            sel.fast_nondominated_sorting(keep)
+            judge(ctx, cs, keep, "resorted_same_list")
+            ctx.count("resort_checks")
         ctx.sample({"size": size, "m": m, "costs": costs[:6], "ranks": oracles.ranks(costs)[:6]}, "generated")
     elif name == "insitu":
         from artap.operators import Selector
